@@ -103,7 +103,7 @@ def run(ctx):
                 r.check('%s:progress' % tag, x.done == 'iterate' and '$m0 += %s.Ok.0' % call in x.effects, site, built=x.effects[-3:], why='bytes read only add to the counter; decoding restarts from the buffer')
             elif pat == 'Err(_)' and kind and kind[0][1] == 'std::io::ErrorKind::WouldBlock' and x.conds[-1] == kind[0]:
                 r.eq('%s:would-block' % tag, (x.value_str(), x.done), ('Ok($m0)', 'return'), site, why='would-block leaves the buffer untouched and reports the bytes read')
-            elif pat == 'Err(_)' and kind and kind[0][1] == '_' and x.conds[-1] == kind[0]:
+            elif pat == 'Err(_)' and kind and kind[0][1] == 'not std::io::ErrorKind::WouldBlock' and x.conds[-1] == kind[0]:
                 r.eq('%s:io-error' % tag, (x.value_str(), x.done),
                      ('<std::result::Result<T, E> as snafu::ResultExt<T, E>>::context(Err(%s.Err.0), errors::IoErrorReadingSocketSnafu)' % call, 'return'), site)
             else:
